@@ -248,7 +248,7 @@ theorem own_proof_passes_validation (n : Node) (pv voteView : Nat) (p : Proof) (
     (hx : extractProof n pv = some (p, b))
     (hP : PreparesOK n) (hPP : C04.ProposalsOK n)
     (hlt : pv < voteView)
-    (hnl : isLeader n.cfg n.cfg.me pv = false) :
+    (hown : ∀ pm ∈ n.store.prepares, pm.header.view = pv → pm.sender = mySig n.cfg → isLeader n.cfg n.cfg.me pv = false) :
     validatePreparedProof n.cfg n.cfg.height voteView (some p) = true := by
   obtain ⟨ppm, hg, _, e1, e2, e3, e4, e5, e6⟩ := C09.extractProof_spec n pv p b hx
   obtain ⟨hppmem, hpph, hppv⟩ := getPP_mem hg
@@ -298,6 +298,7 @@ theorem own_proof_passes_validation (n : Node) (pv voteView : Nat) (p : Proof) (
     rcases al with al | al
     · unfold isLeader at al; rw [r2, hlead, heq] at al; simp at al
     · have : pm.sender.id = n.cfg.me := by rw [al]; rfl
+      have hnl := hown pm hin r2 al
       unfold isLeader at hnl; rw [hlead, ← heq, this] at hnl; simp at hnl
   · -- distinct senders
     have := getPrepares_ids_nodup n.store n.cfg.height pv ppm.c.header.hash hP.keys
@@ -306,11 +307,12 @@ theorem own_proof_passes_validation (n : Node) (pv voteView : Nat) (p : Proof) (
 /-- **The VIEW_CHANGE a correct node builds on timeout is valid at every correct node with the same
 configuration** (so the leader it is addressed to counts it, `C08.ViewChangeAuthentic` + matching
 block by `C09.timeout_vote`).  `hprep`: the prepared view is below the vote's view and the node did
-not lead it; `hinst`: logged messages carry this instance id (the worker's filter, C08). -/
+not lead it if it holds an own PREPARE for it; `hinst`: logged messages carry this instance id (the worker's filter, C08). -/
 theorem own_vote_is_valid_for_peers (n peer : Node) (hcfg : peer.cfg = n.cfg)
     (hme : isMember n.cfg n.cfg.me = true)
     (hP : PreparesOK n) (hPP : C04.ProposalsOK n)
-    (hprep : ∀ pv, n.prepared = some pv → pv < n.view ∧ isLeader n.cfg n.cfg.me pv = false)
+    (hprep : ∀ pv, n.prepared = some pv → pv < n.view ∧
+      (∀ pm ∈ n.store.prepares, pm.header.view = pv → pm.sender = mySig n.cfg → isLeader n.cfg n.cfg.me pv = false))
     (hinstPP : ∀ ppm ∈ n.store.pps, ppm.c.header.inst = n.cfg.inst)
     (hinstP : ∀ pm ∈ n.store.prepares, pm.header.inst = n.cfg.inst) :
     isViewChangeValid peer (C09.voteOnTimeout n).c = true := by
@@ -377,10 +379,11 @@ example : C04.ProposalsOK exNode := by
   have : ppm = exPP := by simpa [exNode, exStore] using hpp
   subst this
   exact ⟨rfl, by decide, Or.inl rfl⟩
-example : ∀ pv, exNode.prepared = some pv → pv < exNode.view ∧ isLeader exNode.cfg exNode.cfg.me pv = false := by
+example : ∀ pv, exNode.prepared = some pv → pv < exNode.view ∧
+    (∀ pm ∈ exNode.store.prepares, pm.header.view = pv → pm.sender = mySig exNode.cfg → isLeader exNode.cfg exNode.cfg.me pv = false) := by
   intro pv h
   have : pv = 0 := by simpa [exNode] using h.symm
-  subst this; exact ⟨by decide, by decide⟩
+  subst this; exact ⟨by decide, fun _ _ _ _ => by decide⟩
 example : ((C09.voteOnTimeout exNode).c.header.proof).isSome = true := by decide
 
 end LeanHelix.C11
